@@ -101,14 +101,17 @@ type crashRun struct {
 	desc   []string
 }
 
-func newCrashRun(cfg bs.BloomSearchEngineConfig) *crashRun {
+func newCrashRun(cfg bs.BloomSearchEngineConfig, r Rng) *crashRun {
 	dir, err := os.MkdirTemp("", "bscrash")
 	if err != nil {
 		fatal("tempdir: %v", err)
 	}
 	cr := &crashRun{dir: dir, cfg: cfg, sentAt: map[int]int{}, ackAt: map[int]int{}, failed: map[int]bool{}, merged: -1}
 	cr.fs = bs.NewFileSystemDataStore(dir)
-	bs.VerifSetDrawFileName(cr.fs, func() string { cr.names++; return fmt.Sprintf("f%02d", cr.names) })
+	// names in random order: a leftover reservation or temp file may sort before, between or after the
+	// committed files of the directory scan
+	order := r.Perm(400)
+	bs.VerifSetDrawFileName(cr.fs, func() string { cr.names++; return fmt.Sprintf("n%03d", order[cr.names%400]) })
 	cr.ffs = &failingFS{FileSystemDataStore: cr.fs}
 	eng, err := bs.NewBloomSearchEngine(cfg, cr.fs, cr.ffs)
 	if err != nil {
@@ -493,10 +496,10 @@ func runC15(c *ctx) {
 		"each distinct crash state is reopened by a fresh engine and queried: acknowledged rows present, nothing twice, no row of a failed flush, query succeeds. A child process under strace must issue exactly the syscall shape of the model's flush/abort/merge protocols. " +
 		"Non-trivial = every reopened crash state; distinct by (.dat content, acknowledged set)"
 	r := NewRng(c.seed, 1500)
-	n := 6 * c.scale
+	n := 20 * c.scale
 	for i := 0; i < n; i++ {
 		cfg := crashCfg(r)
-		cr := newCrashRun(cfg)
+		cr := newCrashRun(cfg, r)
 		steps := 3 + r.IntN(4)
 		for s := 0; s < steps; s++ {
 			switch op := r.Pick(10); {
